@@ -896,6 +896,12 @@ func main() {
 		"receiver reuse: Unmarshal into a packet that already decoded another one may leave the earlier questions in front of the new ones (it appends to Questions; counted as reuse_questions_accumulated, not judged); every other field must equal a fresh receiver's",
 		"scope labels: 1..63 bytes, letter first, letter/digit last, LDH inside; whole encoded name <= 255 bytes")
 	r.SetExhaustive(true)
+	// race side run (./check builds this monitor with -race): only the workloads in which goroutines
+	// use the library at the same time; the detector's reports are filed by Finish
+	if mon.SideRace() {
+		concurrent()
+		r.Finish()
+	}
 	names()
 	packets()
 	carryOver(boundaryPackets())
